@@ -134,6 +134,7 @@ func c04Source(st *memStore, aspect int) {
 }
 
 // export into a capturing store: complete, nothing invented, each node written once
+//
 //vp:setup S_c04
 func H_C04_export_capture(s any) {
 	m := s.(*meta.Module)
